@@ -370,4 +370,241 @@ theorem flatMap_single {α β : Type} (f : α → β) (l : List α) : l.flatMap 
   | nil => rfl
   | cons a l ih => simp [List.flatMap_cons, ih]
 
+/-! ### generic (items × slots) view: multiclass one-vs-rest and multilabel columns -/
+
+/-- the binary problem of slot `s`: `(score a s, lab a s)` for every item. -/
+def viewOf {α : Type} (items : List α) (score : α → Nat → Q) (lab : α → Nat → Nat) (s : Nat) : Samples :=
+  items.map fun a => (score a s, lab a s)
+
+theorem memMat_counts {α : Type} (t : List Q) (hs : t.Pairwise (· ≤ ·)) (S : Nat) (items : List α)
+    (score : α → Nat → Q) (lab : α → Nat → Nat) (hb : ∀ a ∈ items, ∀ s, s < S → lab a s ≤ 1)
+    (r : Nat) (hr : r ≤ 1) :
+    memMat t.length S (histcUnit (2 * t.length * S)
+        (codesOf S (fun a s => searchsortedRight t (score a s)) lab items)) r
+      = t.map fun u => (List.range S).map fun s =>
+          (((viewOf items score lab s).countP fun p => p.2 == r && decide (u ≤ p.1) : Nat) : Q) := by
+  rw [memMat_eq t.length S _ lab items (fun a _ s _ => ss_le_length t (score a s)) hb r hr]
+  apply map_range_eq_map
+  intro k hk
+  apply List.map_congr_left
+  intro s _
+  unfold viewOf
+  rw [List.countP_map]
+  show qcount _ _ = qcount _ _
+  apply qcount_congr
+  intro a _
+  simp only [Function.comp]
+  rw [Bool.and_comm]; congr 1
+  exact decide_eq_decide.mpr (lt_ss_iff t (score a s) hs k hk)
+
+theorem zip_map_map {α β γ δ : Type} (l : List α) (f : α → β) (g : α → γ) (h : β × γ → δ) :
+    ((l.map f).zip (l.map g)).map h = l.map fun a => h (f a, g a) := by
+  induction l with
+  | nil => rfl
+  | cons a l ih => simp [ih]
+
+/-- `class_counts[None, :] - num_tp` when `class_counts[s]` is the number of positives of slot `s`. -/
+theorem fnFrom_eq (t : List Q) (S : Nat) (view : Nat → Samples) :
+    fnFrom ((List.range S).map fun s => (((view s).countP fun p => p.2 == 1 : Nat) : Q))
+        (t.map fun u => (List.range S).map fun s => ((tpAt (view s) u : Nat) : Q))
+      = t.map fun u => (List.range S).map fun s => ((fnAt (view s) u : Nat) : Q) := by
+  unfold fnFrom
+  rw [List.map_map]
+  apply List.map_congr_left
+  intro u _
+  simp only [Function.comp, zip_map_map]
+  apply List.map_congr_left
+  intro s _
+  rw [pos_split (view s) u, Rat.natCast_add]; grind
+
+/-- among 0/1-labelled samples, those scoring `≥ u` split into TP and FP. -/
+theorem ge_split (s : Samples) (u : Q) (h01 : ∀ p ∈ s, p.2 ≤ 1) :
+    s.countP (fun p => decide (u ≤ p.1)) = tpAt s u + fpAt s u := by
+  unfold tpAt fpAt
+  induction s with
+  | nil => rfl
+  | cons p s ih =>
+    have h1 : p.2 ≤ 1 := h01 p List.mem_cons_self
+    simp only [List.countP_cons, ih (fun q hq => h01 q (List.mem_cons_of_mem _ hq))]
+    rcases (show p.2 = 0 ∨ p.2 = 1 by omega) with h | h <;> by_cases h2 : u ≤ p.1 <;> simp [h, h2] <;> omega
+
+/-! ### multiclass (one-vs-rest) and multilabel instances -/
+
+theorem ovr_eq_view (rows : List (List Q)) (labs : List Nat) (c : Nat) :
+    ovr rows labs c = viewOf (rows.zip labs) (fun p c => colAt p.1 c) (fun p c => if c == p.2 then 1 else 0) c := by
+  unfold ovr viewOf colAt
+  apply List.map_congr_left
+  intro p _
+  by_cases h : p.2 = c
+  · simp [h]
+  · have : ¬ c = p.2 := fun e => h e.symm
+    simp [h, this]
+
+theorem labelCol_eq_view (rows : List (List Q)) (tgts : List (List Nat)) (l : Nat) :
+    labelCol rows tgts l = viewOf (rows.zip tgts) (fun p l => colAt p.1 l) (fun p l => tgtAt p.2 l) l := rfl
+
+theorem ovr_label_le (rows : List (List Q)) (labs : List Nat) (c : Nat) : ∀ p ∈ ovr rows labs c, p.2 ≤ 1 := by
+  intro p hp
+  unfold ovr at hp
+  obtain ⟨q, _, rfl⟩ := List.mem_map.mp hp
+  by_cases h : q.2 = c <;> simp [h]
+
+theorem classCounts_eq (C : Nat) (rows : List (List Q)) (labs : List Nat)
+    (hlen : rows.length = labs.length) (hl : ∀ l ∈ labs, l < C) :
+    histcUnit C (labs.map fun l => ((l : Nat) : Int))
+      = (List.range C).map fun c => (((ovr rows labs c).countP fun p => p.2 == 1 : Nat) : Q) := by
+  unfold histcUnit
+  apply List.map_congr_left
+  intro c _
+  unfold qcount ovr
+  congr 1
+  rw [List.countP_map, List.countP_map, ← countP_snd_zip rows labs hlen]
+  apply List.countP_congr
+  intro p hp
+  have hlt : p.2 < C := hl p.2 (List.of_mem_zip hp).2
+  have h1 : ¬ ((p.2 : Nat) : Int) = (C : Int) := by omega
+  by_cases h : p.2 = c
+  · simp [h]
+  · have h2 : ¬ ((p.2 : Nat) : Int) = (c : Int) := by omega
+    simp [h, h1, h2]
+
+theorem b2q_mul (a b : Bool) : b2q a * b2q b = b2q (a && b) := by
+  cases a <;> cases b <;> simp [b2q] <;> grind
+
+theorem cast_countP_eq_sum {α : Type} (p : α → Bool) (l : List α) :
+    ((l.countP p : Nat) : Q) = (l.map fun a => b2q (p a)).sum := qcount_eq_sum p l
+
+theorem mcVecTp_eq (u : Q) (c : Nat) (rows : List (List Q)) (labs : List Nat) :
+    mcVecTp u c rows labs = ((tpAt (ovr rows labs c) u : Nat) : Q) := by
+  unfold mcVecTp tpAt ovr
+  rw [qsum_eq_sum, List.countP_map, cast_countP_eq_sum]
+  congr 1
+  apply List.map_congr_left
+  intro p _
+  rw [b2q_mul]
+  by_cases h : p.2 = c
+  · simp [h, colAt]
+  · have hb : (p.2 == c) = false := beq_eq_false_iff_ne.mpr h
+    simp [h, hb]
+
+theorem mcVecGe_eq (u : Q) (c : Nat) (rows : List (List Q)) (labs : List Nat) (hlen : rows.length = labs.length) :
+    qsum (rows.map fun r => b2q (decide (u ≤ colAt r c)))
+      = (((ovr rows labs c).countP fun p => decide (u ≤ p.1) : Nat) : Q) := by
+  unfold ovr
+  rw [qsum_eq_sum, List.countP_map, cast_countP_eq_sum]
+  have : rows = (rows.zip labs).map Prod.fst := (List.map_fst_zip (by omega)).symm
+  conv => lhs; rw [this, List.map_map]
+  rfl
+
+theorem mcVecFp_eq (u : Q) (c : Nat) (rows : List (List Q)) (labs : List Nat) (hlen : rows.length = labs.length) :
+    mcVecFp u c rows labs = ((fpAt (ovr rows labs c) u : Nat) : Q) := by
+  unfold mcVecFp
+  rw [mcVecTp_eq, mcVecGe_eq u c rows labs hlen, ge_split _ u (ovr_label_le rows labs c), Rat.natCast_add]
+  grind
+
+theorem mcVecFn_eq (u : Q) (c : Nat) (rows : List (List Q)) (labs : List Nat) (hlen : rows.length = labs.length) :
+    mcVecFn u c rows labs = ((fnAt (ovr rows labs c) u : Nat) : Q) := by
+  unfold mcVecFn
+  have : qsum (labs.map fun l => b2q (l == c)) = (((ovr rows labs c).countP fun p => p.2 == 1 : Nat) : Q) := by
+    unfold ovr
+    rw [qsum_eq_sum, List.countP_map, cast_countP_eq_sum]
+    have : labs = (rows.zip labs).map Prod.snd := (List.map_snd_zip (by omega)).symm
+    conv => lhs; rw [this, List.map_map]
+    congr 1
+    apply List.map_congr_left
+    intro p _
+    by_cases h : p.2 = c
+    · simp [h]
+    · have hb : (p.2 == c) = false := beq_eq_false_iff_ne.mpr h
+      simp [h, hb]
+  rw [this, mcVecTp_eq, pos_split _ u, Rat.natCast_add]
+  grind
+
+theorem tgtAt_le (r : List Nat) (l : Nat) (h : ∀ y ∈ r, y ≤ 1) : tgtAt r l ≤ 1 := by
+  unfold tgtAt
+  rw [List.getD_eq_getElem?_getD]
+  cases hr : r[l]? with
+  | none => simp
+  | some y => simpa using h y (List.mem_of_getElem? hr)
+
+theorem labelCol_label_le (rows : List (List Q)) (tgts : List (List Nat)) (l : Nat)
+    (h01 : ∀ r ∈ tgts, ∀ y ∈ r, y ≤ 1) : ∀ p ∈ labelCol rows tgts l, p.2 ≤ 1 := by
+  intro p hp
+  unfold labelCol at hp
+  obtain ⟨q, hq, rfl⟩ := List.mem_map.mp hp
+  exact tgtAt_le q.2 l (h01 q.2 (List.of_mem_zip hq).2)
+
+theorem mlVecTp_eq (u : Q) (l : Nat) (rows : List (List Q)) (tgts : List (List Nat))
+    (h01 : ∀ r ∈ tgts, ∀ y ∈ r, y ≤ 1) :
+    mlVecTp u l rows tgts = ((tpAt (labelCol rows tgts l) u : Nat) : Q) := by
+  unfold mlVecTp tpAt labelCol
+  rw [qsum_eq_sum, List.countP_map, cast_countP_eq_sum]
+  congr 1
+  apply List.map_congr_left
+  intro p hp
+  have hle : tgtAt p.2 l ≤ 1 := tgtAt_le p.2 l (h01 p.2 (List.of_mem_zip hp).2)
+  simp only [Function.comp]
+  show ((Nat.land (b2n (decide (u ≤ colAt p.1 l))) (tgtAt p.2 l) : Nat) : Q)
+      = b2q (tgtAt p.2 l == 1 && decide (u ≤ colAt p.1 l))
+  rcases (show tgtAt p.2 l = 0 ∨ tgtAt p.2 l = 1 by omega) with h | h <;>
+    by_cases h2 : u ≤ colAt p.1 l <;> simp [h, h2, b2n, b2q] <;> rfl
+
+theorem mlVecFp_eq (u : Q) (l : Nat) (rows : List (List Q)) (tgts : List (List Nat))
+    (hlen : rows.length = tgts.length) (h01 : ∀ r ∈ tgts, ∀ y ∈ r, y ≤ 1) :
+    mlVecFp u l rows tgts = ((fpAt (labelCol rows tgts l) u : Nat) : Q) := by
+  unfold mlVecFp
+  have : qsum (rows.map fun r => b2q (decide (u ≤ colAt r l)))
+      = (((labelCol rows tgts l).countP fun p => decide (u ≤ p.1) : Nat) : Q) := by
+    unfold labelCol
+    rw [qsum_eq_sum, List.countP_map, cast_countP_eq_sum]
+    have : rows = (rows.zip tgts).map Prod.fst := (List.map_fst_zip (by omega)).symm
+    conv => lhs; rw [this, List.map_map]
+    rfl
+  rw [this, mlVecTp_eq u l rows tgts h01, ge_split _ u (labelCol_label_le rows tgts l h01), Rat.natCast_add]
+  grind
+
+theorem mlCounts_eq (l : Nat) (rows : List (List Q)) (tgts : List (List Nat))
+    (hlen : rows.length = tgts.length) (h01 : ∀ r ∈ tgts, ∀ y ∈ r, y ≤ 1) :
+    qsum (tgts.map fun r => ((tgtAt r l : Nat) : Q))
+      = (((labelCol rows tgts l).countP fun p => p.2 == 1 : Nat) : Q) := by
+  have e : (tgts.map fun r => ((tgtAt r l : Nat) : Q)) = (tgts.map fun r => tgtAt r l).map fun y => ((y : Nat) : Q) := by
+    rw [List.map_map]; rfl
+  rw [e, qsum_nat01 _ (by
+    intro y hy
+    obtain ⟨r, hr, rfl⟩ := List.mem_map.mp hy
+    exact tgtAt_le r l (h01 r hr))]
+  congr 1
+  unfold labelCol
+  rw [List.countP_map, List.countP_map]
+  have : tgts = (rows.zip tgts).map Prod.snd := (List.map_snd_zip (by omega)).symm
+  conv => lhs; rw [this, List.countP_map]
+  rfl
+
+theorem mlVecFn_eq (u : Q) (l : Nat) (rows : List (List Q)) (tgts : List (List Nat))
+    (hlen : rows.length = tgts.length) (h01 : ∀ r ∈ tgts, ∀ y ∈ r, y ≤ 1) :
+    mlVecFn u l rows tgts = ((fnAt (labelCol rows tgts l) u : Nat) : Q) := by
+  unfold mlVecFn
+  rw [mlCounts_eq l rows tgts hlen h01, mlVecTp_eq u l rows tgts h01, pos_split _ u, Rat.natCast_add]
+  grind
+
+/-! ### `_compute` -/
+
+theorem nanTo1_eq (x : XQ) : nanTo1 x = (match x with | .nan => .val 1 | p => p) := by
+  cases x <;> rfl
+
+theorem curveCompute_counts (s : Samples) (t : List Q) :
+    curveCompute (t.map fun u => ((tpAt s u : Nat) : Q)) (t.map fun u => ((fpAt s u : Nat) : Q))
+      (t.map fun u => ((fnAt s u : Nat) : Q)) = curve s t := by
+  unfold curveCompute curve precisionAt recallAt
+  simp only [zip_map_map]
+  rfl
+
+theorem column_map_range (t : List Q) (S : Nat) (f : Q → Nat → Q) (s : Nat) (hs : s < S) :
+    column (t.map fun u => (List.range S).map fun s => f u s) s = t.map fun u => f u s := by
+  unfold column
+  rw [List.map_map]
+  apply List.map_congr_left
+  intro u _
+  simp [List.getD_eq_getElem?_getD, List.getElem?_map, List.getElem?_range hs]
+
 end TE.BinnedL
